@@ -75,6 +75,13 @@ def to_hy(t, ind=0):
         # two clauses: the first iterable names the variable of the enclosing scope, a *later* clause uses the same name as its
         # iteration variable
         return f'(list (gfor hv_i [{t[1]}] {t[1]} [hv_i] (do (LOGV "{t[1]}" {t[1]}) 0)))'
+    if k == "lforsetv":
+        # a `:setv` clause creates a variable in the comprehension's own scope; the element needs statements, so the comprehension is
+        # emitted as a function
+        return f'(lfor hv_i [0] :setv {t[1]} {t[2]} (do (LOGV "{t[1]}" {t[1]}) 0))'
+    if k == "lforsetvx":
+        # ... and here it is a real Python comprehension (by value, as for "lfor")
+        return f'(lfor hv_i [0] :setv {t[1]} {t[2]} (LOGV "{t[1]}" {t[1]}))'
     if k == "lfor":
         # only the iteration variable is logged inside (by value: CPython 3.12.0-3.12.3 mis-compile a lambda that captures
         # the iteration variable of an inlined comprehension when the enclosing function has a free variable of that name)
@@ -113,6 +120,7 @@ def to_py(prog):
     assigns (after let-renaming); the second emits code, resolving (nonlocal n) to the nearest enclosing binding: a let
     binding, else an enclosing *function* that assigns n, else the module-level variable (-> global)."""
     assigned = {}
+    declared = {}        # Python scope -> names it declares global / nonlocal: its assignments to them are not bindings of its own
 
     def run(emit_code):
         ren = Ren()
@@ -206,6 +214,7 @@ def to_py(prog):
                             break
                     else:
                         pass
+                    declared.setdefault(pyscope, set()).add(t[1])
                     emit(f"global {t[1]}", ind)
                 elif k == "nonlocal":
                     # the name (after let-renaming: a let binding is just a freshly named variable) refers to the nearest
@@ -216,10 +225,11 @@ def to_py(prog):
                     if r is not None and r[1] == pyscope:
                         pass                                     # let binding of this very Python scope: nothing to declare
                     else:
+                        declared.setdefault(pyscope, set()).add(n)
                         target = None
                         for i in range(len(pyscope) - 1, 0, -1):
                             scp = pyscope[:i]
-                            if scp and scp[-1][0] == "fn" and n in assigned.get(scp, ()):
+                            if scp and scp[-1][0] == "fn" and n in assigned.get(scp, ()) and n not in declared.get(scp, ()):
                                 target = "nonlocal"
                                 break
                         if target is None and n in assigned.get((), ()):
@@ -241,6 +251,13 @@ def to_py(prog):
                     emit(f"LOGV({t[1]!r}, {t[1]})", ind + 2)
                     emit("yield 0", ind + 2)
                     emit(f"list(_lf{me}([{r[0] if r else t[1]}]))", ind)
+                elif k in ("lforsetv", "lforsetvx"):
+                    emit(f"def _lf{me}():", ind)
+                    emit("for hv_i in [0]:", ind + 1)
+                    emit(f"{t[1]} = {t[2]}", ind + 2)
+                    emit(f"LOGV({t[1]!r}, {t[1]})", ind + 2)
+                    emit("yield 0", ind + 2)
+                    emit(f"list(_lf{me}())", ind)
                 elif k == "lfor":
                     # a generator function instead of an (inlined, PEP 709) comprehension: CPython 3.12.0-3.12.3 mis-compile
                     # functions in which a lambda refers to a free variable that is also a comprehension's iteration variable
@@ -344,6 +361,8 @@ def spine_programs(levels, pre_opts, post_opts, inner_opts, wrap_function=False)
                         yield pre_s + (("class", f"K{i}", rest),) + post_s
                     elif kind[0] == "lfor":
                         yield pre_s + (("lfor", kind[1], v(), NAMES),) + rest + post_s
+                    elif kind[0] in ("lforsetv", "lforsetvx"):
+                        yield pre_s + ((kind[0], kind[1], v()),) + rest + post_s
                     elif kind[0] == "lforx":
                         yield pre_s + (("lforx", kind[1]),) + rest + post_s
                     elif kind[0] == "lfor2x":
